@@ -6,7 +6,7 @@ from . import c01, c13, campaign, engine, fmt, gen, segs, stages
 
 LEVEL = 'proof'
 PID = 'C14'
-WEIGHTS = {'rect': 0.25, 'oct': 0.4, 'share': 0.3, 'selfop': 0.05, 'boxes': 0.06, 'fan': 0.03, 'abut': 0.15, 'tjo': 0.1, 'punch': 0.06}
+WEIGHTS = {'rect': 0.25, 'oct': 0.4, 'share': 0.3, 'selfop': 0.05, 'boxes': 0.06, 'fan': 0.03, 'abut': 0.15, 'tjo': 0.1, 'punch': 0.06, 'frameslab': 0.12}
 
 
 def res(op, subj, own, oth):
